@@ -401,7 +401,7 @@ var self string
 
 // runChild runs the helper; when=0: plain (no strace); when<0: under strace, log only; when>0:
 // kill at the when-th traced syscall of a thread. Returns whether the helper finished its store.
-func runChild(sp ChildSpec, when int, logPath string) (finished bool, killed bool, output string) {
+func runChild(sp ChildSpec, when int, logPath string, at ...callPoint) (finished bool, killed bool, output string) {
 	os.Remove(filepath.Join(sp.Root, "done"))
 	specPath := filepath.Join(sp.Root, "spec.json")
 	d, _ := json.Marshal(sp)
@@ -413,7 +413,7 @@ func runChild(sp ChildSpec, when int, logPath string) (finished bool, killed boo
 		l := injectList(sp.Compress)
 		args := []string{"-f", "-o", logPath, "-e", "trace=" + l}
 		if when > 0 {
-			args = append(args, "-e", fmt.Sprintf("inject=%s:signal=SIGKILL:when=%d", l, when))
+			args = append(args, "-e", fmt.Sprintf("inject=%s:signal=SIGKILL:when=%d", at[0].Name, at[0].Ordinal))
 		}
 		args = append(args, self, "c12-child", specPath)
 		cmd = exec.Command("strace", args...)
@@ -434,7 +434,16 @@ func runChild(sp ChildSpec, when int, logPath string) (finished bool, killed boo
 // markerRange parses a strace log: the traced syscalls of the first (main) thread are numbered
 // from 1; returns the indices of the first store syscall and of the last one (the calls between
 // the two markers).
-func markerRange(logPath string) (first, last int, names []string, err error) {
+// strace keeps one when= counter per thread AND per syscall number, so a crash point is addressed
+// as (syscall name, ordinal of that syscall on the thread).
+type callPoint struct {
+	Name    string
+	Ordinal int
+	Text    string
+}
+
+func markerRange(logPath string) (first, last int, names []callPoint, err error) {
+	perName := map[string]int{}
 	data, e := os.ReadFile(logPath)
 	if e != nil {
 		return 0, 0, nil, e
@@ -462,17 +471,23 @@ func markerRange(logPath string) (first, last int, names []string, err error) {
 			continue
 		}
 		n++
+		scName := rest
+		if i := strings.Index(rest, "("); i > 0 {
+			scName = rest[:i]
+		}
+		perName[scName]++
 		if strings.Contains(rest, marker) {
 			seen++
 			if seen == 1 {
 				first = n + 1
 			} else if seen == 2 {
 				last = n - 1
+				names = append(names, callPoint{scName, perName[scName], "(store complete)"})
 			}
 			continue
 		}
 		if seen == 1 {
-			names = append(names, rest)
+			names = append(names, callPoint{scName, perName[scName], rest})
 		}
 	}
 	if seen != 2 {
@@ -865,7 +880,7 @@ func runCrashJob(j crashJob) crashResult {
 		sp.Root = filepath.Join(root, fmt.Sprintf("n%d", n))
 		must(os.MkdirAll(sp.Root, 0o775))
 		runLog := filepath.Join(sp.Root, "strace.log")
-		fin, killed, out := runChild(sp, n, runLog)
+		fin, killed, out := runChild(sp, n, runLog, names[n-first])
 		if n <= last && (fin || !killed) {
 			res.err = fmt.Sprintf("the helper was not killed at syscall %d (finished=%v): %s", n, fin, out)
 			return res
@@ -899,10 +914,9 @@ func runCrashJob(j crashJob) crashResult {
 		hit, got := retrieveInto(repo, cdir, j.compress, j.key, j.outs)
 		cc := CrashCase{Kind: "crash", Spec: sp, When: n - first, Prior: pr.State, Post: post, Hit: hit, Restored: got}
 		cc.Spec.Root = ""
-		if n-first < len(names) {
-			cc.Syscall = names[n-first]
-		} else {
-			cc.Syscall = "(store complete)"
+		cc.Syscall = names[n-first].Text
+		if i := strings.Index(cc.Syscall, "/cache/pkg/tgt/"); i > 0 { // drop the scratch directory from the text
+			cc.Syscall = names[n-first].Name + "(..." + cc.Syscall[i+len("/cache/pkg/tgt"):]
 		}
 		switch {
 		case !hit:
